@@ -9,7 +9,8 @@ TRUSTED = [
     "harness/summary.cpp + lib/vlib.py differ; model driver (compiled Lean, Float = IEEE double)",
     "modelled, not verified: funs entries that translate to `atom` (tracers, guide rates, potentials, regions, segments, network, "
     "connection/completion level), UnitSystem conversion factors (passed in from the real UnitSystem; hard constants in property mode), "
-    "TimeService calendar arithmetic (property mode only), Float vs field arithmetic",
+    "calendar arithmetic (civilFromDays model: periodicity proved, round trip not; tied to gmtime by the sumfuns.time op and property mode), "
+    "Float vs field arithmetic",
 ]
 
 
